@@ -5,6 +5,7 @@
 package main
 
 import (
+	"sync/atomic"
 	"bytes"
 	"context"
 	"crypto/sha256"
@@ -178,6 +179,7 @@ func (w *World) injectWrite() error {
 }
 
 type World struct {
+	flakyL0Lists int // the next newLitestream gets a client whose first k level-0 listings fail
 	injectIn         int // commit an application transaction at the n-th next log record (0 = disarmed)
 	injecting        bool
 	injConn          *sql.DB
@@ -279,10 +281,29 @@ func (w *World) newLitestream() *litestream.DB {
 		db.Logger = slog.New(injectHandler{w})
 	}
 	c := file.NewReplicaClient(w.replicaDir)
-	db.Replica = litestream.NewReplicaWithClient(db, c)
+	if w.flakyL0Lists > 0 {
+		// the replica's level-0 listing fails for the first k calls of this object (a storage outage at start-up)
+		n := int32(w.flakyL0Lists)
+		w.flakyL0Lists = 0
+		db.Replica = litestream.NewReplicaWithClient(db, &flakyListClient{ReplicaClient: c, left: &n})
+	} else {
+		db.Replica = litestream.NewReplicaWithClient(db, c)
+	}
 	db.Replica.MonitorEnabled = false
 	c.Replica = db.Replica
 	return db
+}
+
+type flakyListClient struct {
+	*file.ReplicaClient
+	left *int32
+}
+
+func (c *flakyListClient) LTXFiles(ctx context.Context, level int, seek ltx.TXID, useMetadata bool) (ltx.FileIterator, error) {
+	if level == 0 && atomic.AddInt32(c.left, -1) >= 0 {
+		return nil, errors.New("injected: listing unavailable")
+	}
+	return c.ReplicaClient.LTXFiles(ctx, level, seek, useMetadata)
 }
 
 func (w *World) exec(q string, a ...any) error {
